@@ -3,7 +3,7 @@
 d=$1; shift
 git -C /repo apply "$d/patch.diff" || { echo "PATCH DOES NOT APPLY: $d"; exit 2; }
 for p in "$@"; do
-  out=$(cd /verif && python3-vt pyvc/check.py $p --tier quick 2>&1); rc=$?
+  out=$(cd /verif && PYVC_OUT=/tmp/try_seed_out python3-vt pyvc/check.py $p --tier quick 2>&1); rc=$?   # evidence/replays of the broken tree go to scratch
   echo "== $d vs $p: exit $rc; $(echo "$out" | grep -c '^VIOLATION') violation line(s)"
   echo "$out" | grep -E '^VIOLATION|CHECKER-ERROR' | head -4 | cut -c1-260
 done
